@@ -153,7 +153,11 @@ where
     async fn send_msg(&self, msg: Msg) {
         if let ObserverState::Running(sender, _) = &self.state {
             let optype = msg.optype.clone();
+            #[cfg(pearl_verif)]
+            crate::verif::PROBE.msgs.fetch_add(1, Ordering::SeqCst);
             if let Err(e) = sender.send(msg).await {
+                #[cfg(pearl_verif)]
+                crate::verif::PROBE.msgs.fetch_sub(1, Ordering::SeqCst);
                 error!(
                     "Can't send message to worker:\nOperation: {:?}\nReason: {:?}",
                     optype, e
